@@ -9,6 +9,7 @@ from sa.flow import show, sig, subterms
 from sa.model import AnalysisError, norm, parent, walk_no_nested
 
 from .common import (
+    include_rules,
     alts,
     callers_of,
     class_with_code,
@@ -281,6 +282,8 @@ def run(report, p):
     if n_sites < 5:
         raise AnalysisError("fewer than 5 call sites reaching the loader")
 
+    # ---- rules shared with other properties (same mechanism, same rule, reported under every property it can break)
+    include_rules(report, p, 'c01', ['R1.1', 'R1.4'], 'manifest tampering is detected by the c4 digest of the complete manifest file')
     report.not_decided += ["that every byte edit changes the c4 digest (trusted)", "behaviour on chain files not produced by the tool", "concrete exit codes observed at run time"]
 
 
